@@ -293,6 +293,7 @@ func EvalBands(p *load.Program) (*Bands, error) {
 	if pk == nil {
 		return nil, fmt.Errorf("package band not found")
 	}
+	ModulePackages = p.Pkgs
 	ev := NewEvaluator(pk)
 	gc := load.FuncDecl(pk, "GetConfig")
 	if gc == nil {
